@@ -119,7 +119,7 @@ def state_memo(check):
     fs, st = memo.analyse(proj, classes)
     nrep = 0
     for f in fs:
-        if not in_scope(pid, f.func):
+        if not in_scope(pid, f.func) and not (f.level == "class-level attribute" and f.func.cls is not None and any(f.func.cls is c for c in classes) and any(in_scope(pid, g) for g in f.func.cls.methods.values() if g.name != "__init__")):
             continue
         nrep += 1
         check.violation("STATE-MEMO", f.func.qualname, f.message, "%s:%d" % (f.func.module.relpath, f.line), key=f.key)
